@@ -5,6 +5,7 @@ import (
 	"encoding/json"
 	"fmt"
 	"sort"
+	"strings"
 
 	"github.com/lidofinance/dc4bc/client/types"
 	"github.com/lidofinance/dc4bc/fsm/fsm"
@@ -51,6 +52,43 @@ func claimedParticipant(data []byte) *int {
 		return nil
 	}
 	return x.ParticipantId
+}
+
+type claimVariant struct {
+	Name   string
+	Data   []byte
+	Target int // the participant the typed request will name
+}
+
+// claimVariants re-encodes the participant id of a request in every way that a JSON decoder could
+// read differently from the typed request decoder: the contribution is P's, the sender is S.
+func claimVariants(data []byte, P, S int) []claimVariant {
+	out := []claimVariant{{"explicit", data, P}}
+	var m map[string]json.RawMessage
+	if json.Unmarshal(data, &m) != nil {
+		return out
+	}
+	delete(m, "ParticipantId")
+	restBz, _ := json.Marshal(m)
+	inner := string(restBz[1 : len(restBz)-1])
+	join := func(head, tail string) []byte {
+		parts := []string{}
+		for _, p := range []string{head, inner, tail} {
+			if p != "" {
+				parts = append(parts, p)
+			}
+		}
+		return []byte("{" + strings.Join(parts, ",") + "}")
+	}
+	out = append(out,
+		claimVariant{"omitted", join("", ""), 0},
+		claimVariant{"null", join(`"ParticipantId":null`, ""), 0},
+		claimVariant{"lower-case-key", join(fmt.Sprintf(`"participantid":%d`, P), ""), P},
+		claimVariant{"duplicate-key-own-first", join(fmt.Sprintf(`"ParticipantId":%d`, S), fmt.Sprintf(`"ParticipantId":%d`, P)), P},
+		claimVariant{"duplicate-key-other-case", join(fmt.Sprintf(`"ParticipantId":%d`, S), fmt.Sprintf(`"participantId":%d`, P)), P},
+		claimVariant{"duplicate-key-own-last", join(fmt.Sprintf(`"ParticipantId":%d`, P), fmt.Sprintf(`"ParticipantId":%d`, S)), S},
+	)
+	return out
 }
 
 var contributionEvents = map[string]bool{
@@ -135,19 +173,31 @@ func c10(tier string, args []string) int {
 							if w.Nodes[S].Name == g.SenderAddr {
 								continue
 							}
-							mm := g
-							mm.SenderAddr = w.Nodes[S].Name
-							mm.Signature = ed25519.Sign(w.Nodes[S].KeyPair.Priv, mm.Bytes())
-							before := participantRecord(bs.Snap.Dump(rec.Round), P)
-							err, after, _ := lab.Step(bs.Snap, mm)
-							evals++
-							classes["imp|"+bs.Phase+"|"+g.Event] = true
-							if got := participantRecord(after.Dump(rec.Round), P); got != before {
-								trace := map[string]interface{}{"n": nt.n, "t": nt.t, "base": bs.String(), "genuine_offset": j, "event": g.Event, "claimed_participant": P, "signed_and_sent_by": S}
-								r.Violation("C10/impersonation/"+g.Event, fmt.Sprintf("in %s a %s claiming participant %d but sent and signed by participant %d changed participant %d's record (error: %v)", bs, g.Event, P, S, P, err), trace)
-							}
-							if evals < 3 {
-								r.Sample(map[string]interface{}{"kind": "impersonation", "base": bs.String(), "event": g.Event, "claimed": P, "signer": S})
+							// the claim is expressed in every way the two JSON decoders involved
+							// (the binding check and the typed request) could read differently
+							for _, cv := range claimVariants(g.Data, P, S) {
+								if cv.Target == S {
+									continue // S speaking for itself is S's right
+								}
+								mm := g
+								mm.Data = cv.Data
+								mm.SenderAddr = w.Nodes[S].Name
+								mm.Signature = ed25519.Sign(w.Nodes[S].KeyPair.Priv, mm.Bytes())
+								before := participantRecord(bs.Snap.Dump(rec.Round), cv.Target)
+								err, after, _ := lab.Step(bs.Snap, mm)
+								evals++
+								classes["imp|"+bs.Phase+"|"+g.Event+"|"+cv.Name] = true
+								if got := participantRecord(after.Dump(rec.Round), cv.Target); got != before {
+									trace := map[string]interface{}{"n": nt.n, "t": nt.t, "base": bs.String(), "genuine_offset": j, "event": g.Event, "claim": cv.Name, "data": string(cv.Data), "effective_participant": cv.Target, "signed_and_sent_by": S}
+									key := "C10/impersonation/" + g.Event
+									if cv.Name != "explicit" {
+										key = "C10/impersonation-claim-" + cv.Name + "/" + g.Event
+									}
+									r.Violation(key, fmt.Sprintf("in %s a %s (participant id %s) speaking for participant %d but sent and signed by participant %d changed participant %d's record (error: %v)", bs, g.Event, cv.Name, cv.Target, S, cv.Target, err), trace)
+								}
+								if evals < 3 {
+									r.Sample(map[string]interface{}{"kind": "impersonation", "base": bs.String(), "event": g.Event, "claimed": cv.Target, "claim": cv.Name, "signer": S})
+								}
 							}
 						}
 					}
@@ -175,6 +225,35 @@ func c10(tier string, args []string) int {
 						}
 					}
 					phaseSnap[ph+1] = cur2
+				}
+				// (2c) failure reports genuinely signed by P for round 1 (the recorded ceremony has
+				// none): re-posted under round 2's id, under their own and under every other
+				// failure event name of the same request shape
+				failAs := map[string][]string{}
+				dkgFails := []string{string(dpf.EventDKGCommitConfirmationError), string(dpf.EventDKGDealConfirmationError), string(dpf.EventDKGResponseConfirmationError), string(dpf.EventDKGMasterKeyConfirmationError)}
+				for _, e := range dkgFails {
+					failAs[e] = dkgFails
+				}
+				failAs[string(spf.EventDeclineProposal)] = []string{string(spf.EventDeclineProposal)}
+				if bs.K == 0 {
+					for _, in := range lab.DKGAlphabet() {
+						if !in.Fail || in.Variant != "valid" || in.PID < 0 || in.PID >= nt.n || in.PID == v {
+							continue
+						}
+						for _, as := range failAs[string(in.Event)] {
+							withSecond := phaseSnap[phaseOfEvent[as]]
+							mm := in.Msg
+							mm.DkgRoundID = round2
+							mm.Event = as
+							b2 := string(withSecond.Rounds()[round2])
+							err, after, _ := lab.Step(withSecond, mm)
+							evals++
+							classes["xround-fail|"+string(in.Event)+"|"+as] = true
+							if string(after.Rounds()[round2]) != b2 || len(changedProtected(withSecond, after)) > 0 {
+								r.Violation("C10/cross-round-replay/"+as, fmt.Sprintf("a %s signed by %s for round %s, re-posted as %s under the id of another round (in %s), took effect there: now %s (error: %v)", in.Event, in.Msg.SenderAddr, rec.Round[:8], as, withSecond.RoundState(round2), after.RoundState(round2), err), map[string]interface{}{"n": nt.n, "t": nt.t, "base": bs.String(), "made_as": string(in.Event), "posted_as": as, "participant": in.PID})
+							}
+						}
+					}
 				}
 				seen := map[string]bool{}
 				for j := 0; j < bs.K && j < len(rec.Log); j++ {
